@@ -144,7 +144,32 @@ def broadcast_arrays(*arrays):
     return newarrays
 
 def _common_axis(axes, join):
-    """ find the common axis among a list of axes ==> proceed recursively
+    """ find the common axis among a list of axes
+    """
+    com_axis = _join_axes(axes, join)
+
+    if join == 'outer' and len(axes) > 2 and com_axis.size > 1:
+        # The pairwise joins cannot know in which direction axes with fewer than
+        # two labels are meant to be sorted: if all the others are sorted in one 
+        # direction, make sure the result is sorted that way, too.
+        directed = [ax for ax in axes if ax.size > 1]
+        try:
+            increasing = set(bool(ax.values[-1] >= ax.values[0]) for ax in directed)
+            if len(increasing) == 1 and all(ax.is_monotonic() for ax in directed):
+                values = np.sort(com_axis.values)
+                if not increasing.pop():
+                    values = values[::-1]
+                if not np.all(values == com_axis.values):
+                    attrs = com_axis.attrs
+                    com_axis = Axis(values, com_axis.name)
+                    com_axis.attrs.update(attrs)
+        except TypeError:
+            pass # labels that cannot be compared
+
+    return com_axis
+
+def _join_axes(axes, join):
+    """ join a list of axes ==> proceed recursively
     """
     assert len(axes) > 0
 
@@ -154,7 +179,7 @@ def _common_axis(axes, join):
 
     # recursive call
     ax0 = axes[0]
-    ax1 = _common_axis(axes[1:],join)
+    ax1 = _join_axes(axes[1:],join)
 
     # special cases
     # do not include None unless we have a singleton
